@@ -68,6 +68,10 @@ fn stale(it: &mut Interp, info: &mut StepInfo, kind: u8, which: u16) {
                 v.push(("Seek::seek(Start)", outcome(&a.io_seek(h, 0, 0)), None));
                 v.push(("Seek::seek(End)", outcome(&a.io_seek(h, 1, 0)), None));
                 v.push(("Seek::seek(Current)", outcome(&a.io_seek(h, 2, 0)), None));
+                // relative steps that do not fit 32 bits take their own path through the adapter
+                v.push(("Seek::seek(Current, +2^32)", outcome(&a.io_seek(h, 2, 1i64 << 32)), None));
+                v.push(("Seek::seek(Current, -2^32)", outcome(&a.io_seek(h, 2, -(1i64 << 32))), None));
+                v.push(("Seek::seek(Current, i64::MIN)", outcome(&a.io_seek(h, 2, i64::MIN)), None));
                 v.push(("file_eof", outcome(&a.eof(h, Surf::Raw)), None));
                 v.push(("file_length", outcome(&a.length(h, Surf::Raw)), None));
                 v.push(("file_offset", outcome(&a.offset(h, Surf::Raw)), None));
@@ -248,6 +252,9 @@ fn reenter(it: &mut Interp, info: &mut StepInfo, d: u16, lfn: bool, at: u8) {
                 results.push(("Seek::seek(Start)", outcome(&a.io_seek(f, 0, 0))));
                 results.push(("Seek::seek(End)", outcome(&a.io_seek(f, 1, 0))));
                 results.push(("Seek::seek(Current)", outcome(&a.io_seek(f, 2, 0))));
+                results.push(("Seek::seek(Current, +2^32)", outcome(&a.io_seek(f, 2, 1i64 << 32))));
+                results.push(("Seek::seek(Current, -2^32)", outcome(&a.io_seek(f, 2, -(1i64 << 32)))));
+                results.push(("Seek::seek(Current, i64::MAX)", outcome(&a.io_seek(f, 2, i64::MAX))));
                 let mut buf = [0u8; 8];
                 results.push(("Read::read", outcome(&a.read(f, &mut buf, Surf::Io))));
                 results.push(("Write::write", outcome(&a.write(f, b"x", Surf::Io))));
